@@ -660,6 +660,8 @@ func propC07(c *Ctx) {
 		}
 	})
 
+	c.Rule("C07.R9", func() { hookEffectsContained(c, "C07.R9") })
+
 	c.Rule("C07.R5", func() {
 		o := c.Ob("C07.R5", "FinalizeTokenDeposit: every '=' path that reaches a return has advanced the L1 sequence (independent of credit/hook outcome)")
 		seenCredited, seenFailed := false, false
@@ -1095,6 +1097,13 @@ func propC09(c *Ctx) {
 					if len(seqs) != 1 || strip(v.Attrs["l2_sequence"]).Key() != "strconv.FormatUint("+seqs[0].Key()+", 10)" {
 						o2.Fail(c.W.Pos(fn.Pos()), "withdrawal event does not carry the allocated sequence", c.Dump(p, -1))
 					}
+					if bd, ok := v.Attrs["base_denom"]; !ok || strip(bd).Key() != "(opchild/keeper.Keeper).GetBaseDenom(ms.Keeper, ctx, req.Amount.Denom).0" {
+						got := "<missing>"
+						if ok {
+							got = strip(bd).Key()
+						}
+						o2.Fail(c.W.Pos(fn.Pos()), "withdrawal announced with base_denom "+trunc(got, 100)+", want the stored mapping DenomPairs[req.Amount.Denom] (the mapping, once set, decides which L1 token is redeemed)", c.Dump(p, -1))
+					}
 				}
 				o2.Sites += n
 				if n != len(seqs) {
@@ -1130,4 +1139,75 @@ func propC09(c *Ctx) {
 			}
 		}
 	})
+}
+
+
+// hookEffectsContained: inside handleBridgeHook and safeDepositToken no effect
+// may escape the cache context before commit: an effect (event emission, store
+// or keeper write) that happens before commit() must be performed on the
+// context returned by CacheContext(); effects on the outer context are only
+// allowed after commit (or are the tabled gas charge in the deferred closure).
+func hookEffectsContained(c *Ctx, rule string) {
+	type tgt struct {
+		typ, name string
+		params    []string
+	}
+	for _, t := range []tgt{{"Keeper", "handleBridgeHook", []string{"k", "ctx", "data", "hookMaxGas"}}, {"MsgServer", "safeDepositToken", []string{"ms", "ctx", "toAddr", "coins"}}} {
+		fn := c.Method(childKeeper, t.typ, t.name)
+		o := c.Ob(rule, t.name+": nothing escapes the cache context before commit (events, store and keeper writes)")
+		for _, p := range c.Paths(fn, PO{Params: t.params, Visits: 3}) {
+			o.Paths++
+			o.Facts += p.NFacts()
+			var cache *Term
+			committed := false
+			zero := p.HasFact(len(p.Events), func(a *Term, pol bool) bool { return pol && a.Key() == "(sdk.Coins).IsZero(coins)" })
+			for i := range p.Events {
+				ev := &p.Events[i]
+				if ev.Kind != EvCall {
+					continue
+				}
+				if strings.HasSuffix(ev.Call.Name, "(sdk.Context).CacheContext") {
+					cache = ev.Call
+					continue
+				}
+				if ev.Call.Name == "dynamic" && cache != nil && strip(ev.Fun).String() == cache.String()+".1" {
+					committed = true
+					continue
+				}
+				k := effectKind(ev)
+				if k == "" || k == "gas" || strings.HasPrefix(k, "dyn:") {
+					continue // dynamic calls (decoder, ante, handlers) are classified by C07.R2
+				}
+				o.Sites++
+				if committed || (t.name == "safeDepositToken" && zero) {
+					continue
+				}
+				// which context does the effect act on?
+				onCache := false
+				if cache != nil {
+					// the context operand: the event manager's context for events, else the ctx argument
+					var operand *Term
+					if k == "event" {
+						operand = ev.Call.Args[0]
+					} else if len(ev.Call.Args) > 1 {
+						operand = ev.Call.Args[1]
+					}
+					if operand != nil {
+						operand.Walk(func(x *Term) bool {
+							if x.String() == cache.String()+".0" {
+								onCache = true
+							}
+							return !onCache
+						})
+					}
+				}
+				if !onCache {
+					o.Fail(c.evPos(ev), "effect "+k+" happens on the outer context before the cache is committed: it survives a later failure/rollback of the hook or deposit", c.Dump(p, i))
+				}
+			}
+		}
+		if o.Paths == 0 {
+			o.Fail(c.W.Pos(fn.Pos()), "no path", nil)
+		}
+	}
 }
